@@ -21,8 +21,12 @@ EXPLANATION = (
     "assignment and its swapped twin. R3: evaluate_ongoing is f(white) - f(black) + psv with one colour-blind f. R4: "
     "the terminal branch of Heuristic::evaluate is enumerated path by path; the two mate values are affine in the "
     "full-move number and exact negations of each other with the sign that makes nearer mates better for the mating "
-    "side, everything else without legal moves is the draw score; the colour factor folds to +1 / -1. Decided: "
-    "colour symmetry of the static evaluation and of terminal scores; not decided: search-score symmetry.")
+    "side, everything else without legal moves is the draw score; the colour factor folds to +1 / -1. R5: the mate "
+    "distance shown to the user: the move number of the mating position is obtained by simulating make's own "
+    "side/number update ply by ply, and the affine form of score_from_value's mate_in must then be +N / -N for a mate "
+    "in N for both colours. Decided: colour symmetry of the static evaluation, of terminal scores and of the mate "
+    "distance formula; not decided: search-score symmetry for non-terminal scores (it follows from these plus the "
+    "colour-blind search only by an argument the checker does not mechanise).")
 
 H = "inkayaku_engine_core::engine::heuristic::"
 SIMPLE = H + "simple::SimpleHeuristic::"
@@ -360,9 +364,159 @@ def r4_terminal(ctx):
     ctx.ob(rid, "search-evaluate-is-factor-times-evaluate", ok, "" if ok else "Search::evaluate is %s" % (show(t) if t else "not straight-line"), ctx.where(h))
 
 
+def r5_mate_distance(ctx):
+    rid = "C11.R5"
+    ctx.rule(rid, "mate distance: with the terminal values of R4 and the move-number rule of make (simulated ply by ply), score_from_value's mate_in is +N when the mover mates in N moves and -N when it is mated in N, for both colours; decided on the affine form of the returned expression", floor=4)
+    prog = ctx.prog
+    from . import c03
+    run_fn = c03.side_number_runner(ctx, rid, ("make",))
+    if run_fn is None:
+        return
+    def delta(t, plies):
+        turn, num = t, 0
+        for _ in range(plies):
+            out = run_fn("make", turn, 1000 + num)
+            if len(out) != 1:
+                raise Unfoldable("make's side/number update is not a function of the side")
+            (turn, n2), = out.keys()
+            if not isinstance(n2, int):
+                raise Unfoldable("make's number update does not fold")
+            num = n2 - 1000
+        return num
+    f = ctx.fn(rid, TRAIT + "score_from_value")
+    try:
+        pes = returning_paths(f)
+    except NotLoopFree:
+        ctx.lost(rid, "score_from_value has a loop")
+        return
+    VALUE = ("param", 2)
+    seen = set()
+    for pe in pes:
+        r = pe.ret()
+        if not (r[0] == "agg" and r[2].endswith("Mate")):
+            continue
+        # sign of the value on this path
+        sgn = None
+        for (d, c, b, ty) in pe.conds:
+            truth = c != ("in", (0,))
+            if d[0] == "bin" and d[1] in ("Gt", "Lt", "Ge", "Le") and VALUE in (d[2], d[3]):
+                other = d[3] if d[2] == VALUE else d[2]
+                try:
+                    if fold(other) != 0:
+                        continue
+                except Unfoldable:
+                    continue
+                gt = d[1] in ("Gt", "Ge") if d[2] == VALUE else d[1] in ("Lt", "Le")
+                # value is never 0 on a mate path (|value| > win/2): > and >= agree
+                sgn = 1 if gt == truth else -1
+        signs = [sgn] if sgn is not None else [1, -1]
+        for sg in signs:
+            for t in (0, 1):
+                try:
+                    offs = set()
+                    for n in (1, 2, 3):
+                        plies = 2 * n - 1 if sg > 0 else 2 * n
+                        offs.add(n - delta(t, plies))
+                    if len(offs) != 1:
+                        raise Unfoldable("the required offset is not constant in N: %s" % sorted(offs))
+                    want_off = offs.pop()
+
+                    def prep(x):
+                        if not isinstance(x, tuple):
+                            return x
+                        if x[0] == "call" and x[1].endswith("::signum") and x[2] == (VALUE,):
+                            return ("c", sg, "i32", None)
+                        if x[0] == "call" and "From<bool>" in x[1]:
+                            inner = subst(x[2][0], {})
+                            v = fold(sub_turn(inner, t, sg))
+                            return ("c", int(bool(v)), "i32", None)
+                        if x[0] == "bin":
+                            return ("bin", x[1], prep(x[2]), prep(x[3]), x[4])
+                        if x[0] in ("cast", "un"):
+                            return (x[0], x[1], prep(x[2]), x[3])
+                        return x
+
+                    def sub_turn(x, t_, sg_):
+                        m = {}
+                        for lf in leaves(x):
+                            if lf[0] == "f" and lf[2] == "turn":
+                                m[lf] = ("c", t_, "u8", None)
+                        x = subst(x, m)
+                        # comparisons of the value with 0
+                        def cmp0(y):
+                            if not isinstance(y, tuple):
+                                return y
+                            if y[0] == "bin" and y[1] in ("Gt", "Lt", "Ge", "Le") and VALUE in (y[2], y[3]):
+                                return subst(y, {VALUE: ("c", sg_ * 1000, "i32", None)})
+                            if y[0] == "bin":
+                                return ("bin", y[1], cmp0(y[2]), cmp0(y[3]), y[4])
+                            if y[0] in ("cast", "un"):
+                                return (y[0], y[1], cmp0(y[2]), y[3])
+                            return y
+                        return cmp0(x)
+
+                    expr = prep(sub_turn(r[3][0], t, sg))
+                    syms = set()
+                    form = affine_mul(expr, syms)
+                except Unfoldable as e:
+                    ctx.lost(rid, "mate_in of score_from_value is not an affine expression the rule can read (%s)" % e)
+                    return
+                W = [x for x in syms if x[0] == "call" and x[1].endswith("::win_score")]
+                A = [x for x in syms if x[0] == "call" and x[1].endswith("::abs") and x[2] == (VALUE,)]
+                N = [x for x in syms if x[0] == "f" and x[2] == "fullmove_clock"]
+                if len(W) != 1 or len(A) != 1 or len(N) != 1 or len(syms) != 3:
+                    ctx.lost(rid, "mate_in is not built from win_score, |value| and the full-move number only: %s" % sorted(show(x) for x in syms))
+                    return
+                want = {W[0]: sg, A[0]: -sg, N[0]: -sg}
+                if want_off:
+                    want[1] = sg * want_off
+                key = "mate_in|%s|%s-to-move" % ("mover-mates" if sg > 0 else "mover-mated", "white" if t == 0 else "black")
+                if key in seen:
+                    continue
+                seen.add(key)
+                ok = form == want
+                got = {("1" if k == 1 else show(k)): v for k, v in form.items()}
+                ctx.ob(rid, key, ok,
+                       "" if ok else "%s, %s to move: mate_in = %s; with |value| = win_score - (move number of the mate) this is not %sN for a mate in N (it needs win_score %+d, |value| %+d, move number %+d, constant %+d): the distance reported differs from the colour-flipped twin" % (
+                           "the mover mates" if sg > 0 else "the mover is mated", "white" if t == 0 else "black", got, "+" if sg > 0 else "-", sg, -sg, -sg, sg * want_off),
+                       ctx.where(f), sample={"form": got, "offset_required": want_off})
+    # the mate branch is chosen by |value| only (colour blind)
+    ok = False
+    for pe in pes:
+        for (d, c, b, ty) in pe.conds:
+            if any(x[0] == "call" and x[1].endswith("::abs") for x in leaves(d)) and not any(x[0] == "f" and x[2] == "turn" for x in leaves(d)):
+                ok = True
+    ctx.ob(rid, "mate-branch-by-absolute-value", ok, "" if ok else "score_from_value does not select the mate branch by |value|", ctx.where(f))
+
+
+def affine_mul(t, syms):
+    """affine() extended by multiplication with a constant factor"""
+    if t[0] == "bin" and t[1] == "Mul":
+        for a, b in ((t[2], t[3]), (t[3], t[2])):
+            try:
+                c = fold(a)
+            except Unfoldable:
+                continue
+            return {k: v * c for k, v in affine_mul(b, syms).items() if v * c != 0}
+        raise Unfoldable("product of two non-constants: %s" % show(t))
+    k = t[0]
+    if k == "cast":
+        return affine_mul(t[2], syms)
+    if k == "un" and t[1] == "Neg":
+        return {s_: -c for s_, c in affine_mul(t[2], syms).items()}
+    if k == "bin" and t[1] in ("Add", "Sub"):
+        a, b = affine_mul(t[2], syms), affine_mul(t[3], syms)
+        out = dict(a)
+        for s_, c in b.items():
+            out[s_] = out.get(s_, 0) + (c if t[1] == "Add" else -c)
+        return {s_: c for s_, c in out.items() if c != 0}
+    return affine(t, syms)
+
+
 def run(ctx):
     r1_tables(ctx)
     r1_pairing(ctx)
     r2_game_stage(ctx)
     r3_material(ctx)
     r4_terminal(ctx)
+    r5_mate_distance(ctx)
